@@ -24,6 +24,9 @@ func init() {
 func runC20(p *core.Program, r *core.Report) {
 	infl := p.FuncByName("pkg/inflector/internal", "(*Rule).inflected")
 	if infl == nil {
+		infl = inflectionWorker(p) // by role: what the memoised thunk computes
+	}
+	if infl == nil {
 		r.Anchor("A5", "pkg/inflector/internal.(*Rule).inflected")
 		return
 	}
@@ -1006,4 +1009,25 @@ func c20R7(p *core.Program, r *core.Report) {
 	if n == 0 {
 		r.OK(rule, nil, "no rule is anchored on a whole word", token.NoPos, "every rule is anchored at the end only")
 	}
+}
+
+// inflectionWorker: the function of pkg/inflector/internal that computes the inflection of one input for one rule: the
+// module function called from inside the literal handed to sync.OnceValue (a method of the rule today; a plain function
+// taking the rule after a refactoring).
+func inflectionWorker(p *core.Program) *core.Func {
+	for _, cs := range callersOf(p, "sync.OnceValue") {
+		if core.RelPkg(cs.In.Pkg.PkgPath) != "pkg/inflector/internal" || len(cs.Call.Args) != 1 {
+			continue
+		}
+		lit, ok := ast.Unparen(cs.Call.Args[0]).(*ast.FuncLit)
+		if !ok {
+			continue
+		}
+		for _, c := range core.Calls(lit.Body, false) {
+			if h := p.FuncOfObj(core.CalleeFunc(cs.In.Info(), c)); h != nil && h.Pkg == cs.In.Pkg && h.Body != nil {
+				return h
+			}
+		}
+	}
+	return nil
 }
